@@ -162,12 +162,13 @@ Definition src_inplace (r : reorder) (inplace : bool) : bool :=
   | RSelect p am ty => if gen_select_fast (is_none p) (is_none ty) (am_inf am)
                        then gen_select_fast_inplace inplace else gen_select_inplace inplace
   | RSort _ _ => gen_sort_inplace inplace
+  | RSort2 _ _ _ => gen_sort_inplace inplace
   | RShuffle _ => gen_shuffle_inplace inplace
   end.
 
 Lemma inplace_bridge r b : src_inplace r b = b.
 Proof.
-  destruct r as [p am ty| |]; simpl; [destruct (gen_select_fast _ _ _)|..]; destruct b; reflexivity.
+  destruct r as [p am ty| | |]; simpl; [destruct (gen_select_fast _ _ _)|..]; destruct b; reflexivity.
 Qed.
 
 Lemma step_reorder_of_source st s r inplace d m :
